@@ -384,7 +384,7 @@ func init() {
 				}
 				for i := 0; i < 4; i++ {
 					if rerun() != sig {
-						w.Notes = append(w.Notes, "HARNESS ERROR: C15 violation did not reproduce: "+detail)
+						w.Notes = append(w.Notes, "UNREPRODUCED: C15 violation did not reproduce: "+detail)
 						return
 					}
 				}
